@@ -53,6 +53,7 @@ type Op struct {
 	HostileN int      `json:"hostile_n"` // parameter of the recipes
 	CancelMs int64    `json:"cancel_ms"` // >0: client goes away after that long
 	Restart  bool     `json:"restart"`   // not a request: restart the writer process (crash, durable DB state survives)
+	Retry    int      `json:"retry,omitempty"` // the client sends the same body again (up to that many times) when it is answered 5xx
 }
 
 // Client is an actor issuing operations sequentially.
@@ -150,6 +151,9 @@ func genOp(rt *rapid.T, l string, timerMs int, pool [][][2]string, hostile bool)
 			op.Hostile += "+" + rapid.SampledFrom(hostileRecipes).Draw(rt, l+".recipe2")
 		}
 		op.HostileN = rapid.IntRange(0, 100000).Draw(rt, l+".hn")
+	}
+	if op.Hostile == "" && rapid.IntRange(0, 2).Draw(rt, l+".retry?") == 0 {
+		op.Retry = rapid.IntRange(1, 2).Draw(rt, l+".retry")
 	}
 	return op
 }
